@@ -64,6 +64,9 @@ def run(ctx):
         vlib.log("  sequences: %d call histories x %d calls" % (len(seqs), len(seqs[0]["steps"])))
         c11.run_sequences(ctx, binpath, seqs, "seq12")
         ctx.extra["call_sequences"] = len(seqs)
+        hc = c11.huge_cases(ctx, runs=R)
+        vlib.log("  huge parents: %d cases x %d runs" % (len(hc), R))
+        c11.run_and_judge(ctx, binpath, hc, "c12", chunk=20000)
         rc = c11.random_cases(ctx, binpath, 400 if quick else 3000, runs=R, kids=10, vers=6, pars=4, reann=True)
         c11.run_and_judge(ctx, binpath, rc, "c12", chunk=20000)
     finally:
